@@ -14,6 +14,11 @@ CLAIMED = {
    design="4 (C16)",
    note="Trusted: termination and panic-freedom of protogen/protobuf-go/libopenapi/yaml/fmt; the finite universe of full names (measure axioms in spec/trusted/descriptors.spec); protogen hands out non-nil descriptors (nil dereferences are outside the sweep). Static call graph only. 'Bounded time' is established as termination, not as a time bound; memory only through the family's cap (bounded).",
    technique="contract-based deductive verification: termination measures (decreases) with loop invariants, zero-annotation bounds/no-panic VCs for every generator function, structural recursion/loop inventory; bounded plugin-run family as replayer"),
+ "C18": dict(
+   text="Deductive on the generator code that decides the document's structure: the path-parameter builder is proved to declare exactly the variables of the path template (each required, in template order), the template variables are proved to be those of the FULL template (base path included; the missing base-path variables were repaired by a fix: commit), query parameters are exactly the query-annotated fields, each RPC yields exactly one operation whose id is the RPC name and which is filed under the decided verb and template (event obligations), operation ids are proved unique from protoc's name uniqueness, the message collector is proved to reach the request/response types and, from every collected message, the message types of its fields, map values and nested declarations (with its termination), and both renderings are proved to be made from the same document: JSON is the marshalling of the decoded YAML bytes (the YAML-1.1 key corruption found by the replay family was repaired by a fix: commit); the plugin main is proved to write exactly one file per service, named after it, in the format selected by the parameter table. Statements the tree does not satisfy are recorded as known findings by obligation (schema-name collisions, repeated template variable, duplicate query names, overwritten operation, output file-name collisions), each replayed through the real plugin with an independent document validator.",
+   design="4 (C18)",
+   note="Trusted: libopenapi/yaml/json render what they are given; ExtractPathParams is an assumed (regexp) contract. Not proved: that schema builders emit $ref only to collected messages (bounded family: recursive, nested, imported, map, oneof, unwrap, flatten shapes x 4 format parameters).",
+   technique="contract-based deductive verification (functional contracts with loop invariants, event/at-call obligations, lemmas over contracts), z3/cvc5 race; bounded document family with independent validator as replayer"),
  "C09": dict(
    text="Deductive, on the extracted constant templates: validateHeaders is proved (map-building loops and a map-range loop verified for arbitrary iteration order) to reject exactly when some effective required declaration is unsatisfied, with one violation list; the type/format validators are pinned per type and format; the request pipeline checks headers first and reads no body before they passed; lemmas state acceptance/rejection and the 'method declaration replaces service declaration' rule, whose optional-override class is a known finding replayed with httptest; CombineHeaders (what OpenAPI publishes) is verified separately.",
    design="4 (C09)",
